@@ -83,7 +83,8 @@ class ArffAttrReader(Filter[Iterable[str], Iterable[Tuple[str,Callable]]]):
 
                 if item[0] in quotes:
                     q  = item[0]
-                    while item.rstrip()[-1] != q or item.rstrip()[-2]=="\\":
+                    #a piece that is only the opening quote (the name or level starts with the separator) is not closed yet
+                    while len(item.rstrip()) < 2 or item.rstrip()[-1] != q or item.rstrip()[-2]=="\\":
                         item += next(items)
 
                     #a backslash escapes the character after it (so a doubled backslash stands for one backslash)
